@@ -29,6 +29,8 @@ type C11Scenario struct {
 	// DeadPrimary: the configured uri of every server refuses connections and the healthy
 	// simulated server is its failover upstream - a static condition, answers stay a pure function of the query
 	DeadPrimary bool `json:"dead_primary"`
+	// NoFlagsAPI: the simulated servers do not implement /api/v1/status/flags
+	NoFlagsAPI bool `json:"no_flags_api"`
 }
 
 // rule palette: every entry is built to draw at least one problem from some check
@@ -50,6 +52,9 @@ var palette = []string{
 	"- record: %s\n  expr: missing_metric{job=\"x\"} / up\n",
 	"- record: %s\n  expr: topk(5, http_requests_total)\n  labels:\n    team: a\n",
 	"- record: %s\n  expr: errors_total{instance=~\".+\"} * on(instance) group_left(job) up\n",
+	"- alert: %s\n  expr: http_requests_total offset 5m > 100 and on(instance) up offset 5m == 1\n",
+	"- record: %s\n  expr: rate(http_requests_total[5m] offset 1h) / on(instance) node_load1 offset 10m\n",
+	"- alert: %s\n  expr: http_requests_total > 100\n  labels:\n    severity: page\n  annotations:\n    summary: direct counter read\n",
 }
 
 var alertNames = []string{"Down", "HighErrors", "Flaky", "Load"}
@@ -145,6 +150,7 @@ func drawC11(rt *rapid.T) C11Scenario {
 		}
 	}
 	sc.DeadPrimary = sc.Servers > 0 && rapid.IntRange(0, 2).Draw(rt, "deadprimary") == 0
+	sc.NoFlagsAPI = sc.Servers > 0 && rapid.IntRange(0, 2).Draw(rt, "noflags") == 0
 	sc.Files = append(sc.Files, simFile{Path: ".pint.hcl", Content: c11Config(sc.ConfigVar, sc.Servers, sc.DeadPrimary)})
 	return sc
 }
@@ -171,7 +177,7 @@ func c11Env(sc *C11Scenario, workers int, sched detsim.SchedConfig) simEnv {
 		env.Files = append(env.Files, simFile{Path: "rules/.keep", Content: ""})
 	}
 	for i := 0; i < sc.Servers; i++ {
-		env.Servers = append(env.Servers, simServer{Host: fmt.Sprintf("prom%d:9090", i), DB: standardDB})
+		env.Servers = append(env.Servers, simServer{Host: fmt.Sprintf("prom%d:9090", i), DB: standardDB, NoFlagsAPI: sc.NoFlagsAPI})
 	}
 	return env
 }
